@@ -4,7 +4,7 @@ use pep508_rs::{ExtraName, PackageName};
 use std::str::FromStr;
 
 /// Independent reading of the property (PEP 503/508/685), not of the crate.
-fn spec(s: &str) -> Option<String> {
+pub fn spec(s: &str) -> Option<String> {
     let b = s.as_bytes();
     if b.is_empty() {
         return None;
